@@ -14,6 +14,8 @@ import random
 
 import vcommon as vc
 
+PROPERTIES = ["C07", "C08"]
+
 FREQS = ["-", "final_step", "year", "yearly", "month", "monthly", "week", "weekly",
          "day", "daily", "every_n_steps", "every_step", "time_step", "bogus", "Year"]
 
@@ -576,7 +578,7 @@ def run_engine(ctx, cases_path):
     if err:
         ctx.broke("harness calendar.cpp builds against /repo", err)
         return None, None
-    m, err = vc.build_model()
+    m, err = vc.build_model("calendar")
     if err:
         ctx.broke("model extraction/driver build", err)
         return None, None
@@ -585,7 +587,7 @@ def run_engine(ctx, cases_path):
     rc, e = vc.run_to_file([h, cases_path], impl)
     if rc != 0:
         ctx.broke("implementation harness run (exit %d)" % rc, e)
-    rc, e = vc.run_to_file([m, "calendar", cases_path], model)
+    rc, e = vc.run_to_file([m, cases_path], model)
     if rc != 0:
         ctx.broke("model driver run (exit %d)" % rc, e)
     return impl, model
